@@ -23,7 +23,7 @@ CTYPES = ["text/plain", "text/html", "text/plain; charset=utf-8", "application/o
           "application/pdf; name=\"Invoice-Q3.PDF\"", "text/calendar; method=REQUEST; charset=utf-8", "application/x-Mixed; Name=\"CamelCase.Bin\""]
 CONTENTS = [b"hello", b"line1\nline2\n", b"", b"--", b"--x\r\n--x--\r\n", b"-- \n", b"caf\xc3\xa9", b"\x00\x01\xff binary", b"a" * 100, b"x\r\n.\r\ny",
             b"--boundary\n", b"=3D=\n", b"trailing space \n", b"\r\n\r\n", b"From: inj@x\n\nbody"]
-BOUNDARIES = ["-", "-", "-", "a b", "=_x'()+_,-./:=?", "simple", "x" * 70, "0", "y" * 71, "z" * 100, "Upper-CASE_boundary"]
+BOUNDARIES = ["-", "-", "-", "a b", "a =?b?= c", "=?x?= y", "=_x'()+_,-./:=?", "simple", "x" * 70, "0", "y" * 71, "z" * 100, "Upper-CASE_boundary"]
 
 
 def valid_utf8(b):
